@@ -289,7 +289,7 @@ theorem nameChromosomes_of_groups (prefix_ : Str) (fs : List Scaffold) (haps : L
       (by
         intro g hgm
         rw [groupFirstLength_ok fs g (hne g hgm) (h1 g hgm)]; rfl)
-    rw [ok_bind, hm, ok_bind]
+    rw [hm, ok_bind]
     rw [stableSort_map, List.map_map]
     have hs : ((fun x : Int × GroupData => x.2) ∘ fun g : GroupData => (firstLen fs g, g)) = id := by
       funext g; rfl
